@@ -58,7 +58,10 @@ OpPool == <<
     Sel("N", <<>>),
     \* rewriting columns with the value they hold next to a real change
     Upd("R", NameIs("r2"), [wref |-> <<"u2", "u1">>, x |-> 7]),
-    Upd("R", NameIs("r3"), [mkv |-> <<<<"k", "u1">>>>, y |-> 7])
+    Upd("R", NameIs("r3"), [mkv |-> <<<<"k", "u1">>>>, y |-> 7]),
+    \* several rows take one index value at once, then one of them moves on
+    Upd("R", <<>>, [name |-> "r1"]),
+    Upd("R", <<<<"_uuid", "==", "u5", "atom">>>>, [name |-> "r7"])
 >>
 
 ASSUME PrintT(<<"POOL", ToJson(OpPool)>>)
